@@ -250,7 +250,7 @@ fn main() {
         let m = e.len();
         (0..=m + 2).chain(vec![usize::MAX / 2, (1usize << 63) - 1, 1usize << 63, usize::MAX - 6, usize::MAX - 5, usize::MAX - 4, usize::MAX - 3, usize::MAX - 2, usize::MAX - 1, usize::MAX]).map(move |i| BinsCase { edges: e.clone(), i }).collect::<Vec<_>>()
     });
-    rep.run_sub("bins-index", "every edge collection of length 0..=5 over 4 values (unsorted, duplicates) x index 0..=len+2, MAX/2, 2^63-1, 2^63, MAX-6..=MAX", cases, |c, lx| {
+    rep.run_sub("bins-index", "every edge collection of length 0..=5 over 4 values (unsorted, duplicates; through the Vec constructor, a fresh Array1 or an owned Array1 narrowed in place, rotating) x index 0..=len+2, MAX/2, 2^63-1, 2^63, MAX-6..=MAX", cases, |c, lx| {
         let vals: Vec<i32> = c.edges.iter().map(|&d| d as i32 * 2).collect();
         let mut d = vals.clone();
         d.sort();
@@ -259,8 +259,22 @@ fn main() {
         let in_range = c.i < nb;
         lx.nontrivial(true);
         lx.count(if in_range { "in_range_cases" } else { "out_of_range_cases" }, 1);
+        // the edges reach `Edges` through the Vec constructor, a fresh Array1, or an owned Array1 narrowed in
+        // place (whose allocation still holds two more values, 100 and 102, which would be extra bins)
+        let via = (c.i % 3 + c.edges.len()) % 3;
         lx.single(|lx| {
-            let bins = Bins::new(Edges::from(vals.clone()));
+            let edges = match via {
+                0 => Edges::from(vals.clone()),
+                1 => Edges::from(Array1::from(vals.clone())),
+                _ => {
+                    let mut padded = vals.clone();
+                    padded.push(100);
+                    padded.push(102);
+                    let n = vals.len();
+                    Edges::from(Array1::from(padded).slice_move(ndarray::s![..n]))
+                }
+            };
+            let bins = Bins::new(edges);
             let r = guarded(|| bins.index(c.i));
             match (&r, in_range) {
                 (Ok(v), false) => lx.fail("C16/bins-out-of-range-accepted", || format!("Bins over edges {:?} ({} bins): index({}) returned {:?}", d, nb, c.i, v)),
@@ -306,7 +320,25 @@ fn main() {
         lx.nontrivial(true);
         lx.count(if in_range { "in_range_cases" } else { "out_of_range_cases" }, 1);
         lx.single(|lx| {
-            let grid = Grid::from(c.axes.iter().map(|&a| Bins::new(Edges::from(EDGE_SETS[a].to_vec()))).collect::<Vec<_>>());
+            let grid = Grid::from(
+                c.axes
+                    .iter()
+                    .enumerate()
+                    .map(|(k, &a)| {
+                        let list = EDGE_SETS[a].to_vec();
+                        // every other axis: an owned Array1 narrowed in place (its allocation holds two more values)
+                        if (k + c.index.len()) % 2 == 0 {
+                            Bins::new(Edges::from(list))
+                        } else {
+                            let n = list.len();
+                            let mut padded = list;
+                            padded.push(100);
+                            padded.push(102);
+                            Bins::new(Edges::from(Array1::from(padded).slice_move(ndarray::s![..n])))
+                        }
+                    })
+                    .collect::<Vec<_>>(),
+            );
             let r = guarded(|| grid.index(&c.index));
             match (&r, in_range) {
                 (Ok(v), false) => lx.fail("C16/grid-out-of-range-accepted", || format!("Grid of shape {:?}: index({:?}) returned {:?}", shape, c.index, v)),
